@@ -447,9 +447,8 @@ theorem melSt_props (notes : List ((Int × Int) × (Int × Int))) (b : Buzzer K)
   | cons x rest ih =>
     obtain ⟨⟨fn, fd⟩, ⟨bn, bd⟩⟩ := x
     simp only [melSt, reduceCtorEq, if_false]
-    obtain ⟨h1, h2, h3⟩ := ih (silentSt (if (if fn = 0 then (0 : K) else (fn : K) / (fd : K)) ≤ 0 then b
-      else { b with state := true, current := (if fn = 0 then (0 : K) else (fn : K) / (fd : K)),
-                    last := (if fn = 0 then (0 : K) else (fn : K) / (fd : K)) }))
+    generalize (if fn = 0 then (0 : K) else (fn : K) / (fd : K)) = f
+    obtain ⟨h1, h2, h3⟩ := ih (silentSt (if f ≤ 0 then b else { b with state := true, current := f, last := f }))
     refine ⟨?_, ?_, ?_⟩
     · rw [h1, silentSt_pin]; split <;> rfl
     · rw [h2]; split <;> rfl
@@ -468,11 +467,10 @@ theorem melodyLoop_eq (beatMs : K) (notes : List ((Int × Int) × (Int × Int)))
       · rw [trunc_nonneg_eq (le_of_lt ‹_›)]
       · rfl
     rw [hd]
-    split
-    · rename_i hf
-      simp [hf]
-    · rename_i hf
-      rw [toneOf_eq (le_of_lt (not_le.mp hf))]
+    generalize (if fn = 0 then (0 : K) else (fn : K) / (fd : K)) = f
+    by_cases hf : f ≤ 0
+    · simp [hf]
+    · rw [toneOf_eq (le_of_lt (not_le.mp hf))]
       simp [hf]
 
 theorem pinL_scoreEvs_getLast (pin : Int) (beatMs : K) (notes : List ((Int × Int) × (Int × Int))) :
@@ -484,12 +482,32 @@ theorem pinL_scoreEvs_getLast (pin : Int) (beatMs : K) (notes : List ((Int × In
     simp only [scoreEvs, pinL_append, List.getLast?_append, ih, reduceCtorEq, if_false]
     have hd : pinL (if 0 < (bn : K) / (bd : K) * beatMs then [Ev.delay ⌊(bn : K) / (bd : K) * beatMs⌋] else []) = [] := by
       split <;> simp
+    generalize (if fn = 0 then (0 : K) else (fn : K) / (fd : K)) = f
     by_cases hr : rest = []
     · simp only [hr, if_true, Option.none_or]
-      split
-      · simp [hd]
-      · simp [hd]
+      by_cases hf : f ≤ 0
+      · simp [hf, hd]
+      · simp [hf, hd]
     · simp [hr]
+
+theorem lookup_mem {l : List (String × Score)} {a : String} {sc : Score} (h : l.lookup a = some sc) :
+    (a, sc) ∈ l := by
+  induction l with
+  | nil => simp at h
+  | cons x xs ih =>
+    obtain ⟨k, v⟩ := x
+    rw [List.lookup_cons] at h
+    split at h
+    · rename_i hk
+      have : a = k := by simpa using hk
+      cases h; subst this
+      exact List.mem_cons_self
+    · exact List.mem_cons_of_mem _ (ih h)
+
+theorem melodies_notes_ne_nil : ∀ p ∈ melodies, p.2.notes ≠ [] := by decide
+
+theorem melody_notes_ne_nil {name : String} {sc : Score} (h : melodies.lookup name = some sc) : sc.notes ≠ [] :=
+  melodies_notes_ne_nil _ (lookup_mem h)
 
 /-! ## the blocks -/
 
@@ -506,7 +524,8 @@ theorem step_playTone_some (b : Buzzer K) (f d : Val K) (ms : Int) (h : toULong 
   simp [Buzzer.step, sound_eq, h, silentSt]
 
 theorem step_playTone_undef (b : Buzzer K) (f d : Val K) (h : toULong d = none) :
-    (Buzzer.step b (.playTone f (some d))).defined = false := by
+    Buzzer.step b (.playTone f (some d))
+      = { st := soundSt b (Buzzer.clamp0 f.toF), evs := [soundEv b.pin (Buzzer.clamp0 f.toF)], defined := false } := by
   simp [Buzzer.step, sound_eq, h]
 
 theorem step_stop (b : Buzzer K) : Buzzer.step b .stop = { st := silentSt b, evs := [.noTone b.pin] } := by
@@ -521,11 +540,11 @@ theorem step_beep (b : Buzzer K) (f : Option (Val K)) (on off n : Val K) (onMs o
     Buzzer.step b (.beep f on off n)
       = { st := beepSt b (beepFreq b f) (toCInt n).toNat,
           evs := beepEvs b.pin (soundEv b.pin (beepFreq b f)) onMs offMs (toCInt n).toNat } := by
-  simp [Buzzer.step, hon, hoff, beepLoop_eq, beepFreq]
+  cases f <;> simp [Buzzer.step, hon, hoff, beepLoop_eq, beepFreq]
 
 theorem step_beep_undef (b : Buzzer K) (f : Option (Val K)) (on off n : Val K)
     (h : toULong on = none ∨ toULong off = none) :
-    (Buzzer.step b (.beep f on off n)).defined = false := by
+    Buzzer.step b (.beep f on off n) = { st := b, evs := [], defined := false } := by
   simp only [Buzzer.step]
   split
   · rename_i h1 h2
@@ -561,7 +580,7 @@ theorem step_melody (b : Buzzer K) (name : String) (t : Option (Val K)) (sc : Sc
     (h : melodies.lookup name = some sc) :
     Buzzer.step b (.melody name t)
       = { st := melSt sc.notes b, evs := scoreEvs b.pin (60000 / melTempo sc t) sc.notes } := by
-  simp [Buzzer.step, h, melodyLoop_eq, melTempo]
+  cases t <;> simp [Buzzer.step, h, melodyLoop_eq, melTempo]
 
 theorem step_melody_unknown (b : Buzzer K) (name : String) (t : Option (Val K))
     (h : melodies.lookup name = none) :
